@@ -353,6 +353,69 @@ light_windowed!(c05_windowed_update_light_offset_56_one_surprise, 56, Some(3)); 
 //@ endfamily: x
 
 // ---------------------------------------------------------------------------------------------
+// The window-moving step (offset 0 -> 1) in a light form: 14 rows concrete, 2 rows symbolic
+// ---------------------------------------------------------------------------------------------
+
+//@ props: C05 C17
+//@ tier: thorough
+//@ timeout: 7200
+//@ functions: cpc::sketch::CpcSketch::row_col_update
+//@ functions: cpc::sketch::CpcSketch::update_windowed
+//@ functions: cpc::sketch::CpcSketch::move_window
+//@ functions: cpc::sketch::CpcSketch::build_bit_matrix
+//@ functions: cpc::pair_table::PairTable::maybe_insert
+//@ functions: cpc::pair_table::PairTable::clear
+//@ bounds: lg_k = 4, Pinned sketch at window offset 0 with 53 coupons (one below the threshold 27K/8 = 54): 14 window rows concrete (6 full, 8 empty), rows 5 and 10 symbolic (their bit counts constrained so that the total is 53), no surprising value before the step; the 54th coupon is a symbolic novel bit of row 5 or 10 inside the window. Measured: no verdict within 20 min / 11 GB (move_window rebuilds the matrix into a heap vector, whose rows symbolic execution does not see as constants, so the surprising-value loop is unrolled for all 16 rows) - kept for larger machines
+//@ desc: the update that crosses the threshold moves the window to offset 1: afterwards the sketch denotes the old matrix plus the new bit (window = columns 1..8, rows without bit 0 listed as surprising zeros, bit 8.. as surprising ones), num_coupons = 54, validate() holds, and first_interesting_column skips only full columns
+#[kani::proof]
+#[kani::unwind(18)]
+fn c05_move_window_0_to_1_light() {
+    // 6 rows full (48 bits), the symbolic rows 5 and 10 hold 5 bits together -> 53 coupons; the other rows
+    // are empty (bit 0 unset: they become surprising zeros at offset 1)
+    let mut window = [0u8; K];
+    let full = [0usize, 1, 2, 3, 4, 6];
+    let mut i = 0;
+    while i < 6 {
+        window[full[i]] = 0xFF;
+        i += 1;
+    }
+    let wa: u8 = kani::any();
+    let wb: u8 = kani::any();
+    kani::assume(wa.count_ones() + wb.count_ones() == 5);
+    window[5] = wa;
+    window[10] = wb;
+    let mut model = [0u64; K];
+    let mut r = 0;
+    while r < K {
+        model[r] = window[r] as u64;
+        r += 1;
+    }
+    let mut s = CpcSketch::new(4);
+    s.sliding_window = window.to_vec();
+    s.window_offset = 0;
+    s.surprising_value_table = Some(vt::raw_table(2, &[u32::MAX; 4]));
+    s.first_interesting_column = 0;
+    s.kxp = 8.0;
+    s.hip_est_accum = 100.0;
+    let c0 = popcount_matrix(&model);
+    assert!(c0 == 53);
+    s.num_coupons = 53;
+    // the 54th coupon: a novel window bit of row 5 or row 10
+    let in_a: bool = kani::any();
+    let col: u32 = kani::any();
+    kani::assume(col < 8);
+    let row: u32 = if in_a { 5 } else { 10 };
+    kani::assume(model[row as usize] & (1u64 << col) == 0);
+    s.row_col_update((row << 6) | col);
+    model[row as usize] |= 1u64 << col;
+    assert!(s.window_offset == 1, "the window did not move when the 54th coupon arrived");
+    check_consistent(&s, &model);
+    kani::cover!(wa & 1 == 0 && wb & 1 == 1);
+    kani::cover!(col == 0);
+    core::mem::forget(s);
+}
+
+// ---------------------------------------------------------------------------------------------
 // serialization at sketch level (Empty / Sparse / Hybrid), wrapper agreement, update() derivation
 // ---------------------------------------------------------------------------------------------
 use crate::verif_kani_common::stub_format;
